@@ -8,6 +8,15 @@ CHECKS = {
  "C12": ("model_checking", "TLC model checking of spec/AsyncChannel.tla (faithful asyncio.Queue/Task/Future + AsyncChannel model; every placement of Wake/Cancel among atomic steps; invariants + liveness under fairness), replay of TLC-simulated behaviours on the real asyncio classes with per-step state comparison, and TLC trace validation (Trace_AbsChannel over spec/AbsChannel.tla) of the call/return logs of those runs and of seeded model-free random schedules",
          "All schedules of the FIFO ready queue for a family of small programs (1-2 senders, send/send_from, separate closer, 1-3 receivers using receive()/async-for, bounded and unbounded buffers, one cancellation anywhere, gates released up to one operation ahead) are explored exhaustively on a line-by-line model of AsyncChannel over CPython's Queue/Task/Future; the model is bound to the code by replaying simulated behaviours on the real classes (every step compared, internals included) and the property itself is decided on the real executions by stepping their public call/return logs through the abstract channel specification.",
          "Trusted: steploop.py reproduces the stock loop's FIFO ready queue; CPython 3.12 asyncio semantics as modelled (conformance-checked); senders/flush task are not cancelled in the explored programs.", "5.5, 6/C12"),
+ "C01": ("model_checking", "TLC model checking of the round-trip theorems of spec/Codec.tla (MC_Codec: SpecDecode(SpecEncode(m)) = Norm(m), any field order) and TLC trace validation (Trace_Codec op rt) of encode/decode/compare/re-encode events recorded from betterproto on the Wide schema family",
+         "The binary format is specified independently of betterproto (Codec.tla: ideal decoder, canonical encoder, value normal form); its round-trip theorem is model-checked on the boundary family, and every recorded event of the real code (each field kind x boundary value x presence mode alone, pairwise, and thousands of seeded random full-range messages incl. recursion, maps over every key kind, wrappers, Timestamp/Duration) is judged by TLC: the bytes must spec-decode to the value the message was built from, the parsed message must be observed equal to it (values, oneof selection, None-ness, nested presence), == must hold and re-encoding must be byte-identical.",
+         "Trusted: abstract value <-> object transport (harness/dyn.py), struct for IEEE bit patterns; classes built through the public field API (plugin output is C03).", "5.2, 6/C01"),
+ "C02": ("model_checking", "TLC model checking of LegalEnc (spec/MC_Codec.tla: nondeterministic encoder; decoder-insensitivity theorem) with every terminal encoding exported and decoded by betterproto and by google.protobuf, plus cross-serialisation of Wide-family values; all observations judged by TLC (Trace_Codec op xdec)",
+         "LegalEnc enumerates, for a pool of small messages, every field order, packed / unpacked / chunked repeated scalars, padded varints, shadowed singular scalars and oneof members and interleaved unknown fields (bounded number of non-canonical choices); TLC proves the ideal decoder insensitive to them and each exported encoding is fed to both implementations, whose observations must equal the encoded value; Wide-family values serialised by either implementation are decoded by the other.  The reference is bound to the same spec (a disagreement there is a machinery error).",
+         "Trusted: google.protobuf (upb) as reference; float values compared numerically (NaN identified, -0.0 == 0.0); merging of split sub-messages is outside the statement.", "5.2, 6/C02"),
+ "C09": ("model_checking", "TLC model checking of the size theorem SpecSize = Len(SpecEncode) (MC_Codec.SizeAgrees) and TLC trace validation (Trace_Codec op len) of len / bytes / dump / dump(SIZE_DELIMITED) / SerializeToString events on constructed and decoded messages",
+         "Every constructed Wide-family message (boundary values x presence modes incl. empty-but-present optional/oneof/nested members, pairs, random) and every message decoded from a LegalEnc encoding (unknown fields, shadowed members) is asked for len(), bytes(), dump(), dump(SIZE_DELIMITED) and SerializeToString(); TLC checks len = Len(bytes), dump = bytes and the delimited form = EncVarint(Len) o bytes.",
+         "Trusted: as C01.", "5.2, 6/C09"),
 }
 NOT_YET = {}
 def main():
